@@ -143,6 +143,8 @@ structure St where
   retrieved : List (Str × Str) := []          -- `tr retrieved`: provider calls the implementation made
   wantExact : List (Str × String) := []       -- top-level key, encoded value the result must hold exactly
   leafAll : Bool := false
+  dname : Bool := false        -- the case holds exactly one reference and its name has a `$`
+  implErrClass : String := ""
   wants : List (Str × Bool × Str × String) := []   -- key, nested?, original text, yaml kind
   implTyped : List (Str × List String) := []
   wantc : List (Str × String × String) := []   -- key, expected container (encoded), yaml kind
@@ -354,6 +356,39 @@ def checkMergeError (s : St) : Option String :=
       some "sig=C12/merge/overridden-reference-still-looked-up resolve-failed-though-every-merged-value-resolves"
     else none
 
+/-- the `$`-in-name clause on the implementation (`C12_dollar_in_name_error(_default)`): a string value that survives the
+merge and whose first reference — as `findURI` finds it — has a `$` anywhere in its NAME (first and last position included)
+makes resolution fail; it can never succeed, and the provider is never consulted for such a name -/
+def dollarNameLeaf (s : St) : Option Str :=
+  match s.srcs.reverse.mapM asConf with
+  | none => none
+  | some ms =>
+    let env := s.env
+    (flatten [] (mergeSources ms)).findSome? (fun l =>
+      match l.2 with
+      | .str str =>
+        match findURI env.mode env.defaultScheme.isSome str with
+        | some (_, body, _) =>
+          let name := if hasColon body then (match splitColon body with | some (sc, nm) => if validScheme sc then some nm else none | none => none)
+                      else (match env.defaultScheme with | some _ => some body | none => none)
+          (match name with
+           | some nm => if hasDollar nm then some str else none
+           | none => none)
+        | none => none
+      | _ => none)
+
+def checkDollarName (s : St) : Option String :=
+  match dollarNameLeaf s with
+  | none => none
+  | some str =>
+    if !s.implErr then
+      some s!"sig=C12/name/dollar-in-name-not-rejected input={hexStr str} resolved-without-error"
+    else if s.dname && s.implErrClass != "dollar-in-name" then
+      some s!"sig=C12/name/dollar-in-name-not-rejected input={hexStr str} class={s.implErrClass}"
+    else if s.dname && !s.retrieved.isEmpty then
+      some s!"sig=C12/name/provider-consulted-for-rejected-name input={hexStr str} retrieved={" ".intercalate (s.retrieved.map (fun u => hexStr u.1 ++ ":" ++ hexStr u.2))}"
+    else none
+
 /-- the result holds exactly the later source's value under an overridden key -/
 def checkExact (s : St) : Option String :=
   match s.implStrmap with
@@ -412,7 +447,7 @@ def handler : Handler St where
             ++ kvs.map (fun kv => s!"obs typedx {hexStr kv.1} s={showOptStr (decodeString kv.2)} a={showVal (decodeAny kv.2)}"))
     | "resolve" :: rest =>
       let hint := (kv rest "hint").getD "-"
-      let s := { s with tokOnly := kv rest "tokonly" == some "1", leafAll := kv rest "leaf" == some "1" }
+      let s := { s with tokOnly := kv rest "tokonly" == some "1", leafAll := kv rest "leaf" == some "1", dname := kv rest "dname" == some "1" }
       match resolve s.env s.srcs.reverse with
       | .error es =>
         let names := es.map showErr
@@ -436,7 +471,7 @@ def handler : Handler St where
       match parseValTok v with
       | some v => { s with implRes := some v }
       | none => { s with bad := some "unparsable res" }
-    | _ :: "res" :: "err" :: _ => { s with implErr := true }
+    | _ :: "res" :: "err" :: cls => { s with implErr := true, implErrClass := " ".intercalate cls }
     | [_, "retrieved", sc, nm] =>
       match unhexStr sc.toList, (if nm = "-" then some [] else unhexStr nm.toList) with
       | some sc, some nm => { s with retrieved := s.retrieved ++ [(sc, nm)] }
@@ -466,6 +501,9 @@ def handler : Handler St where
         ++ (match checkWants s with
             | some d => [s!"prop typed=FAIL {d}"]
             | none => ["prop typed=ok"])
+        ++ (match checkDollarName s with
+            | some d => [s!"prop dollarname=FAIL {d}"]
+            | none => ["prop dollarname=ok"])
         ++ (match checkExact s with
             | some d => [s!"prop override=FAIL {d}"]
             | none => ["prop override=ok"])
@@ -493,6 +531,9 @@ def handler : Handler St where
         ++ (match checkMergeError s with
             | some d => [s!"prop mergeerr=FAIL {d}"]
             | none => ["prop mergeerr=ok"])
+        ++ (match checkDollarName s with
+            | some d => [s!"prop dollarname=FAIL {d}"]
+            | none => ["prop dollarname=ok"])
 
 end OtelVerif.Drivers.C12
 
